@@ -60,7 +60,8 @@ def run(ctx):
         if o["rule"] == "C13-R3" or (o["rule"] in ("C13-R1", "C13-R2") and ("setData:" in o["key"] or o["key"] == "encodeDlc")):
             # (R1/R2: the length and DLC bytes of the CAN / LIN / Ethernet headers are (re)written with the values of this call on every path)
             res.check(o["ok"], "C12-R5", "builders:" + o["key"], o["loc"], o["detail"])
-    res.extra["accessor_stats"] = stats
+    res.extra["accessor_stats"] = {k: v for k, v in stats.items() if k != "unsupported"}
+    accessors.require_supported(stats)
     res.floor("C12-R1", 250)
     res.floor("C12-R2", 30)
     res.floor("C12-R3", 20)
